@@ -9,7 +9,7 @@ From Coq Require Import List Arith ZArith QArith Qcanon Lia Permutation.
 From OV Require Import Base.Panic Base.Arith Base.Flat Model.Vector Model.Matrix Model.Sparse Model.SparseOps Inst.QcInst
                        Proofs.SparseBase Proofs.SparseMul Proofs.SparseWf Proofs.SparseHist Proofs.SparseViews
                        Proofs.SparseRefine Proofs.SparseTranspose Proofs.SparseFinal
-                       Proofs.SparseDup Proofs.SparseDupOps Proofs.SparseDupMul.
+                       Proofs.SparseDup Proofs.SparseDupOps Proofs.SparseDupMul Proofs.SparseDupHist Proofs.SparseDupTranspose.
 Import ListNotations.
 Local Open Scope nat_scope.
 
@@ -130,6 +130,29 @@ Example dup_transpose : fl_res dump (sp_transpose dup_s)
   /\ fl_res (fun s : sparse AQ => fl_list flat_q (dvals s 1 1)) (sp_transpose dup_s) = [0; 3;  2; 2; 1;  2; 30; 1;  2; 500; 1]%Z
   /\ fl_res (fun s : sparse AQ => fl_list flat_q (dvals s 1 0)) (sp_transpose dup_s) = [0; 1;  2; 7; 1]%Z.
 Proof. vm_compute. auto. Qed.
+
+(* transpose = from_triplets of the swapped listing (all six fields) *)
+Example dup_transpose_is_from_triplets :
+  fl_res dump (sp_transpose dup_s) = fl_res dump (sp_from_triplets 2 2 (map tswap (ents dup_s))).
+Proof. vm_compute. reflexivity. Qed.
+
+(* a history on the storage with duplicates: overwrite the first (1,1), transpose, overwrite it again, scale, overwrite (0,0),
+   insert the absent (0,1) -- the lists of the storage are those of the list-level specification *)
+Definition dup_ops : list (sop AQ) :=
+  [@SInsert AQ 1 1 (q 9 1); @STranspose AQ; @SInsert AQ 1 1 (q 4 1); @SScale AQ (q 3 1); @SInsert AQ 0 0 (q (-1) 1); @SInsert AQ 0 1 (q 8 1)].
+
+Example dup_ops_ok : ops_ok (sp_rows dup_s) (sp_cols dup_s) dup_ops.
+Proof. unfold dup_ops, dup_s. cbn [ops_ok sp_rows sp_cols]. repeat split; lia. Qed.
+
+Example dup_history :
+  fl_res (fun s : sparse AQ => fl_list flat_q (dvals s 1 1)) (sp_run dup_ops dup_s) = [0; 3;  2; 12; 1;  2; 90; 1;  2; 1500; 1]%Z /\
+  fl_list flat_q (dspec_run dup_ops (dabs dup_s) 1 1) = [0; 3;  2; 12; 1;  2; 90; 1;  2; 1500; 1]%Z /\
+  fl_res (fun s : sparse AQ => fl_list flat_q (dvals s 0 0 ++ dvals s 0 1 ++ dvals s 1 0)) (sp_run dup_ops dup_s)
+    = [0; 3;  2; -1; 1;  2; 8; 1;  2; 21; 1]%Z /\
+  fl_list flat_q (dspec_run dup_ops (dabs dup_s) 0 0 ++ dspec_run dup_ops (dabs dup_s) 0 1 ++ dspec_run dup_ops (dabs dup_s) 1 0)
+    = [0; 3;  2; -1; 1;  2; 8; 1;  2; 21; 1]%Z /\
+  fl_res (@fl_opt AQ flat_q) (let* s := sp_run dup_ops dup_s in sp_get s 1 1) = [0; 1;  2; 12; 1]%Z.
+Proof. vm_compute. repeat split. Qed.
 
 (* ---- 4. products: the sparse product works with 532, the product with the dense conversion with 500 ---- *)
 Example dup_mul : fl_res (fl_list flat_q) (sp_mul dup_s dup_x) = [0; 2;  2; -11; 1;  2; -1064; 1]%Z          (* [3 - 14; 532 * -2] *)
